@@ -297,9 +297,22 @@ def coq_enum_prog(name, xj):
     # new_with_raw_value
     new_ok, new_param, ret_result, reader, arms, default = False, '(None, 0)', 'None', False, [], 'DefOther'
     f = fns.get('new_with_raw_value')
+    st = f['body']['stmts'] if f else []
+    # `let raw = value.value(); match raw { .. }`: a local that names the scrutinee is the scrutinee
+    alias = {}
+    while len(st) > 1 and st[0]['s'] == 'let' and st[0].get('ty') is None and st[0].get('init') is not None:
+        alias[st[0]['name']] = st[0]['init']
+        st = st[1:]
+
+    def resolve(x):
+        seen = 0
+        while x.get('e') == 'path' and len(x['segs']) == 1 and x['segs'][0] in alias and seen < 4:
+            x = alias[x['segs'][0]]
+            seen += 1
+        return x
     if f and f['vis'] == 'pub' and f['const'] and not f['unsafe'] and len(f['params']) == 1 and f['params'][0].get('name') == 'value' \
-            and len(f['body']['stmts']) == 1 and f['body']['stmts'][0]['s'] == 'expr' and not f['body']['stmts'][0]['semi']:
-        e = f['body']['stmts'][0]['e']
+            and len(st) == 1 and st[0]['s'] == 'expr' and not st[0]['semi']:
+        e = st[0]['e']
         pt = enum_ty(f['params'][0]['ty'])
         ret = f['ret'] or ''
         m = re.fullmatch(r'Result<Self,u(\d+)>', ret)
@@ -310,7 +323,8 @@ def coq_enum_prog(name, xj):
         elif ret == 'Self':
             wraps = False
         if e.get('e') == 'match' and pt and wraps is not None:
-            x = e['x']
+            scrut = e['x']
+            x = resolve(e['x'])
             okx = False
             if x.get('e') == 'path' and x['segs'] == ['value']:
                 reader, okx = False, True
@@ -340,10 +354,11 @@ def coq_enum_prog(name, xj):
                         good = False
                 elif last and not arm['attrs']:
                     b = arm['body']
-                    if pat['p'] == 'ident' and pat['name'] == 'value' and b.get('e') == 'call' and b['f'].get('e') == 'path' \
-                            and b['f']['segs'] == ['Err'] and len(b['args']) == 1 and b['args'][0].get('e') == 'path' \
-                            and b['args'][0]['segs'] == ['value']:
-                        default = 'DefErr'
+                    is_err = b.get('e') == 'call' and b['f'].get('e') == 'path' and b['f']['segs'] == ['Err'] and len(b['args']) == 1
+                    if pat['p'] == 'ident' and is_err and b['args'][0].get('e') == 'path' and b['args'][0]['segs'] == [pat['name']]:
+                        default = 'DefErr'          # `name => Err(name)`: the binding is the scrutinee
+                    elif pat['p'] == 'wild' and is_err and (b['args'][0] == scrut or resolve(b['args'][0]) == x):
+                        default = 'DefErr'          # `_ => Err(<the scrutinee again>)`
                     elif pat['p'] == 'wild' and b.get('e') == 'macro' and b['path'] == ['unreachable'] and b['tokens'].strip() == '':
                         default = 'DefUnreachable'
                     else:
